@@ -126,34 +126,21 @@ def _compute_degree_iterative(expr: Expression) -> Optional[int]:
             result_stack.append(1)
             continue
 
-        # Vector expressions - these have known degrees
-        if isinstance(node, LinearCombination):
-            result_stack.append(1)
-            continue
-        if isinstance(node, VectorSum):
-            result_stack.append(1)
-            continue
-        if isinstance(node, DotProduct):
-            result_stack.append(2)
-            continue
-        if isinstance(node, QuadraticForm):
-            result_stack.append(2)
-            continue
-        if isinstance(node, VectorPowerSum):
-            # sum(x ** k) has degree k
-            result_stack.append(int(node.power))
-            continue
-        if isinstance(node, VectorUnarySum):
-            # sum(sin(x)), sum(exp(x)) etc. are non-polynomial
-            result_stack.append(None)
-            continue
-        if isinstance(node, ElementwisePower):
-            # x ** k has degree k
-            result_stack.append(int(node.power))
-            continue
-        if isinstance(node, ElementwiseUnary):
-            # sin(x), exp(x) etc. are non-polynomial
-            result_stack.append(None)
+        # Vector expressions - flat nodes, same rules as the recursive traversal
+        if isinstance(
+            node,
+            (
+                LinearCombination,
+                VectorSum,
+                DotProduct,
+                QuadraticForm,
+                VectorPowerSum,
+                VectorUnarySum,
+                ElementwisePower,
+                ElementwiseUnary,
+            ),
+        ):
+            result_stack.append(_compute_degree_impl(node))
             continue
 
         # Unary operations
@@ -294,22 +281,35 @@ def _compute_degree_impl(expr: Expression) -> Optional[int]:
             return max_deg
         return 1  # Default for unknown vector types
     if isinstance(expr, DotProduct):
-        # x · y could be quadratic if both are variables
-        # For now, return 2 (quadratic) as worst case
-        return 2
+        # sum_i l_i * r_i: the largest degree of any product of paired elements
+        max_deg = 0
+        for l_elem, r_elem in zip(expr._iter_left(), expr._iter_right()):
+            l_deg = _compute_degree_impl(l_elem)
+            if l_deg is None:
+                return None
+            r_deg = _compute_degree_impl(r_elem)
+            if r_deg is None:
+                return None
+            max_deg = max(max_deg, l_deg + r_deg)
+        return max_deg
     if isinstance(expr, QuadraticForm):
-        # xᵀAx is always quadratic
-        return 2
-    if isinstance(expr, VectorPowerSum):
-        # sum(x ** k) has degree k
-        return int(expr.power)
-    if isinstance(expr, VectorUnarySum):
-        # sum(sin(x)), sum(exp(x)) etc. are non-polynomial
-        return None
-    if isinstance(expr, ElementwisePower):
-        # x ** k has degree k
-        return int(expr.power)
-    if isinstance(expr, ElementwiseUnary):
+        # xᵀAx is quadratic in the elements of x
+        if hasattr(expr.vector, "_variables"):
+            return 2
+        max_deg = 0
+        for sub_expr in expr.vector._expressions:
+            d = _compute_degree_impl(sub_expr)
+            if d is None:
+                return None
+            max_deg = max(max_deg, d)
+        return 2 * max_deg
+    if isinstance(expr, (VectorPowerSum, ElementwisePower)):
+        # x ** k is polynomial (degree k) only for natural k
+        k = float(expr.power)
+        if not k.is_integer() or k < 0:
+            return None
+        return int(k)
+    if isinstance(expr, (VectorUnarySum, ElementwiseUnary)):
         # sin(x), exp(x) etc. are non-polynomial
         return None
 
